@@ -170,6 +170,8 @@ class Env:
         p.set(ebpfcat_mod, "monotonic", clock)
         p.set(devices, "monotonic", clock)
         p.set(xdp, "if_nametoindex", self._if_nametoindex)
+        # process-global counter: every simulated run starts like a fresh process
+        p.set(ebpfcat_mod.SyncGroup, "packet_index", 1000)
         if self.kernel is not None:
             p.set(bpf, "bpf", self.kernel.bpf)
             p.set(arraymap, "mmap", self.kernel.mmap)
